@@ -23,7 +23,7 @@ RULE = ("every kind of invalid argument (22 kinds: non-positive chunk sizes, emp
         "non-trivial = the call raised AND some requested valid leaf had been listed before the offending one or carried a "
         "pre-existing .grad; distinct = (kind, position, program) sha1")
 ASSUMPTIONS = ["only leaves' .grad fields are inspected (object identity, bits, _version)"]
-PROGRAMS = {"quick": 36, "thorough": 4000}
+PROGRAMS = {"quick": 36, "thorough": 20000}
 ALLOC = 8
 
 
